@@ -322,6 +322,13 @@ func (e *Engine) markBindings(mc *ssa.MakeClosure, ms *ModSet) {
 }
 
 func (st *State) havocSet(ms *ModSet) {
+	if os.Getenv("P9VC_TRACE") != "" {
+		var hs []string
+		for h := range ms.heaps {
+			hs = append(hs, h)
+		}
+		fmt.Fprintf(os.Stderr, "havocSet all=%v %v\n", ms.all, hs)
+	}
 	if ms.all {
 		st.havocAll()
 		return
@@ -371,6 +378,9 @@ func (st *State) growAlloc() {
 }
 
 func (st *State) havocAll() {
+	if os.Getenv("P9VC_TRACE") != "" {
+		fmt.Fprintf(os.Stderr, "havocAll\n")
+	}
 	if os.Getenv("P9VC_DEBUG_HAVOC") != "" {
 		buf := make([]byte, 3000)
 		buf = buf[:runtime.Stack(buf, false)]
@@ -529,7 +539,14 @@ func (x *Exec) callFunc(st *State, fr *frame, fn *ssa.Function, bindings []Val, 
 		return x.applyContract(st, fr, ct, fn.Signature, fn, args, pos, name)
 	}
 	if fn.Blocks != nil && (e.analysed(fn) || e.inlineExtern[name]) {
-		if x.inlineDepth >= 6 || x.onStack(fn) {
+		maxDepth, rec := 6, false
+		if ct := e.contracts[name]; ct != nil && ct.Recursion > 0 {
+			maxDepth, rec = ct.Recursion, true
+		}
+		if x.recDepth > 0 {
+			maxDepth = x.recDepth
+		}
+		if x.inlineDepth >= maxDepth || (x.onStack(fn) && !rec) {
 			x.fail(st, "inline-depth", name)
 			st.havocAll()
 			return one(st, st.fresh("rec", fn.Signature.Results()))
@@ -562,6 +579,12 @@ func (x *Exec) inline(st *State, caller *frame, fn *ssa.Function, bindings []Val
 	}
 	for i, fv := range fn.FreeVars {
 		fr.regs[fv] = bindings[i]
+	}
+	if ct := x.e.contracts[x.e.shortName(fn)]; ct != nil && ct.Recursion > x.recDepth {
+		x.recDepth = ct.Recursion
+	}
+	if os.Getenv("P9VC_TRACE") != "" {
+		fmt.Fprintf(os.Stderr, "%sinline %s at %s\n", strings.Repeat("  ", x.inlineDepth), x.e.shortName(fn), shortPos(x.e.fset, pos))
 	}
 	x.inlineDepth++
 	x.stack = append(x.stack, fn)
@@ -825,6 +848,9 @@ func (x *Exec) builtin(st *State, fr *frame, b *ssa.Builtin, c *ssa.CallCommon, 
 		v := args[0]
 		switch v.Ty.Underlying().(type) {
 		case *types.Slice:
+			if v.HasArr {
+				return one(st, Val{T: fmt.Sprint(v.ArrLen), Ty: types.Typ[types.Int]})
+			}
 			return one(st, Val{T: "(s_len " + v.T + ")", Ty: types.Typ[types.Int]})
 		case *types.Map:
 			return one(st, Val{T: ite("(= "+v.T+" 0)", "0", st.mapLen(v.Ty, v.T)), Ty: types.Typ[types.Int]})
@@ -961,6 +987,12 @@ func (e *Engine) encodeAddr(s *State, a *Addr) string {
 		for _, gn := range e.zeroGhosts() {
 			g := e.ghosts[gn]
 			s.assume(eq(s.ghostRead(g, loc), e.zero(g.Ty)))
+		}
+		if typeKey(ty) == "bytes.Buffer" {
+			// the zero value of bytes.Buffer is an empty buffer
+			e.needBytes()
+			s.groups["bytes"] = true
+			s.ghostWrite(s.ghost("out"), loc, "bempty")
 		}
 		// mutexes of a newly allocated object are not held
 		if st, ok := ty.Underlying().(*types.Struct); ok {
